@@ -119,6 +119,12 @@ def run_prim(prog, upto=None):
             r = apply_op(pool, op)
             if r != 'error' and r[0] == 'push':
                 pool.append(r[1])
+            if r != 'error':
+                r = (r[0], r[1], D.dump(r[1] if r[0] == 'push' else pool[r[1]]))     # the dump BEFORE str()/repr()
+                # observe exactly as gen_prim did: str() of an object with derivatives goes through into_units() ->
+                # clone()._set_values_(), which can freeze a mask array shared with the object (no WF matter, but it
+                # must happen in the replay too, or the WRITEABLE flags of later dumps differ)
+                S.printable(r[1] if r[0] == 'push' else pool[r[1]])
             results.append(r)
     finally:
         S.restore_globals()
